@@ -504,6 +504,9 @@ func (c *FnCtx) runDefers() {
 		// only defers that dominate the current block certainly run; others are approximated by havoc
 		if d.Block().Dominates(c.curBlock) {
 			c.doCall(nil, &d.Call, d)
+		} else if d.Block() != c.curBlock && !c.blockReaches(d.Block(), c.curBlock) {
+			// the defer statement cannot have executed on any path to this return
+			continue
 		} else {
 			c.notes = append(c.notes, "conditional defer approximated by havoc")
 			c.havocAll()
